@@ -43,6 +43,7 @@ type rewriter struct {
 	edits   []edit
 	useSim  bool
 	noYield bool
+	dense   bool // a yield point before EVERY statement (statement-level interleaving)
 	warn    []string
 }
 
@@ -160,6 +161,13 @@ func (r *rewriter) stmtList(list []ast.Stmt) {
 		need := false
 		for _, h := range hdr {
 			if shallowHasOp(h) {
+				need = true
+			}
+		}
+		if r.dense {
+			switch s.(type) {
+			case *ast.DeclStmt, *ast.EmptyStmt, *ast.LabeledStmt:
+			default:
 				need = true
 			}
 		}
@@ -321,6 +329,7 @@ func main() {
 	repo := flag.String("repo", "/repo", "repository root")
 	outDir := flag.String("out", "", "scratch output directory")
 	noYield := flag.Bool("noyield", false, "only rewrite sync imports and go statements")
+	denseDirs := flag.String("dense", "", "comma-separated package dirs (relative to repo) that get a yield point before every statement")
 	flag.Parse()
 	if *outDir == "" || flag.NArg() == 0 {
 		fmt.Fprintln(os.Stderr, "usage: instrument -repo R -out D pkgdir...")
@@ -352,7 +361,13 @@ func main() {
 				fmt.Fprintln(os.Stderr, "instrument: parse:", err)
 				os.Exit(2)
 			}
-			r := &rewriter{fset: fset, file: fset.File(f.Pos()), src: src, rel: filepath.Join(pd, name), noYield: *noYield}
+			dense := false
+			for _, d := range strings.Split(*denseDirs, ",") {
+				if d != "" && filepath.Clean(d) == filepath.Clean(pd) {
+					dense = true
+				}
+			}
+			r := &rewriter{fset: fset, file: fset.File(f.Pos()), src: src, rel: filepath.Join(pd, name), noYield: *noYield, dense: dense}
 			for _, is := range f.Imports {
 				if is.Path.Value == `"sync"` {
 					if is.Name != nil && is.Name.Name != "sync" {
